@@ -1367,6 +1367,73 @@ def c01_descriptions(run, model):
             run.nontrivial.add(digest(texts[0][1]))
 
 
+def mm_siblings(mm, rng):
+    """molecules that differ from mm in exactly one isotope / radical statement (so they are different molecules)"""
+    out = []
+    idx = list(range(mm.n()))
+    rng.shuffle(idx)
+    for i in idx[:3]:
+        a = mm.atoms[i]
+        if a[0] in ("D", "T"):
+            continue
+        m2 = mm.copy()
+        if a[3]:
+            m2.atoms[i][3] = 0                      # isotope label dropped
+        else:
+            m2.atoms[i][3] = ZOF[a[0]] * 2 + 7       # isotope label added
+        m2.family = "sibling:mass"
+        out.append(m2)
+        m3 = mm.copy()
+        m3.atoms[i][2] = 0 if a[2] else 2            # radical dropped / added
+        m3.family = "sibling:rad"
+        out.append(m3)
+    return out[:4]
+
+
+def c02_descriptions(run, model):
+    """C02 at the level of molfile descriptions: a molecule and a sibling that differs in one isotope or radical statement,
+    both written with the SAME spelling choices (continuation cuts, blank runs, keyword order, extra keywords ...), must
+    not get the same string"""
+    rng = run.sub_rng("c02/texts")
+    sc = scale_of(run)
+    t_end = time.time() + (40 if run.tier == "quick" else 600)
+    n = 0
+    for mm in mm_stream(run.sub_rng("c02/mm"), 150 * sc, v2ok=True, stars=False, nmax=16):
+        if time.time() > t_end:
+            run.notes.append("C02 descriptions: time budget reached after %d molecules" % n)
+            break
+        n += 1
+        kn3 = random_knobs3(rng)
+        kn3.pop("iso_spelling", None)
+        for fmt in ("V3000", "V2000"):
+            if fmt == "V2000" and not v2ok(mm):
+                continue
+            seed = rng.getrandbits(32)
+            def render(m):
+                r = random.Random(seed)
+                return render3000(m, r, **kn3) if fmt == "V3000" else render2000(m, r, **kn2)
+            kn2 = random_knobs2(rng)
+            base = render(mm)
+            s0, e0 = tucan_of_text(base)
+            run.evaluations += 1
+            correspond(run, model, "K1" if fmt == "V3000" else "K2", base, "C02:" + fmt)
+            if s0 is None:
+                continue
+            for sib in mm_siblings(mm, rng):
+                if fmt == "V2000" and not v2ok(sib):
+                    continue
+                text = render(sib)
+                s1, e1 = tucan_of_text(text)
+                run.evaluations += 1
+                run.count("C02_text:" + sib.family)
+                if s1 is not None and s1 == s0:
+                    run.falsifier_hits.append({"property": "C02", "what": "two molfiles (%s) that state different molecules (%s) get the same string" % (fmt, sib.family),
+                                               "key": "C02:text:" + sib.family, "case": {"kind": "C02-text", "text": base, "text_b": text},
+                                               "extra": {"string": s0[:300], "knobs": nondefault3(kn3) if fmt == "V3000" else sorted(kn2)}})
+                if mm.n() >= 2:
+                    run.nontrivial.add(digest(text))
+
+
 def c05_reader_stream(run, model):
     """texts (well-formed spellings and the malformed streams of both formats) through reader -> canonicalize -> serialize"""
     rng = run.sub_rng("c05/texts")
@@ -1486,10 +1553,21 @@ def c08(run, model):
     run_corpus(run, model)
     run_malformed(run, model, "K2", run.sub_rng("c08/malformed"), 1500 * sc)
 
+    prev_text = [None]
+
     def one(mm, kn2, kn3, tag):
         t2 = render2000(mm, rng, **kn2)
         t3 = render3000(mm, rng, **kn3)
         run.evaluations += 1
+        prior = None
+        if run.evaluations % 3 == 0 and prev_text[0] and "M  END" in prev_text[0]:
+            # what a reader returns for a file must not depend on a file it rejected before: the previous molecule's file,
+            # cut off before "M  END", is read (and rejected) first
+            prior = prev_text[0][:prev_text[0].index("M  END")].rstrip("\n")
+            read_graph(prior)
+            run.count("C08_after_rejected_read")
+        if mm.has_labels():
+            prev_text[0] = t2
         nd = sorted(k for k, v in kn2.items() if v != K2_DEFAULT[k])
         run.count("C08_knobs:" + (tag if len(nd) <= 1 else "combined"))
         for name in nd:
@@ -1498,7 +1576,7 @@ def c08(run, model):
         if probs:
             run.falsifier_hits.append({"property": "C08", "what": "V2000 / V3000 / stated molecule disagree under V2000 spelling [%s]: %s" % (",".join(nd) or "plain", probs[0]),
                                        "key": "C08:" + ("text_trap" if "text_trap" in nd else ",".join(nd) or "plain"),
-                                       "case": {"kind": "C08", "text": t2, "text3000": t3, "mm": mm.to_json(), "knobs": kn2, "knobs3000": kn3},
+                                       "case": {"kind": "C08", "text": t2, "text3000": t3, "mm": mm.to_json(), "knobs": kn2, "knobs3000": kn3, "prior_rejected_text": prior},
                                        "extra": {"problems": probs[:8]}})
         correspond(run, model, "K2", t2, "render2000:" + (",".join(nd) or "plain"))
         correspond(run, model, "K1", t3, "render3000(C08)")
@@ -2016,6 +2094,8 @@ def replay_text(run, model, hit):
     if kind == "C07":
         probs = fals_c07(MM.from_json(case["mm"]), case["text"])
     elif kind == "C08":
+        if case.get("prior_rejected_text"):
+            read_graph(case["prior_rejected_text"])
         probs = fals_c08(MM.from_json(case["mm"]), case["text"], case["text3000"])
     elif kind == "C09":
         probs, _, _ = fals_c09_graph(graph_of_json(case["graph"]))
@@ -2024,6 +2104,9 @@ def replay_text(run, model, hit):
     elif kind == "C01-text":
         a, b = tucan_of_text(case["text"]), tucan_of_text(case["text_b"])
         probs = [] if (a == b and a[0] is not None) else ["strings differ: %s / %s" % (str(a)[:200], str(b)[:200])]
+    elif kind == "C02-text":
+        a, b = tucan_of_text(case["text"]), tucan_of_text(case["text_b"])
+        probs = ["two different molecules, one string: %s" % str(a[0])[:200]] if (a[0] is not None and a[0] == b[0]) else []
     elif kind == "C05-text":
         _, probs = fals_c05_text(case["text"])
     elif kind == "C06":
